@@ -22,17 +22,20 @@ typedef struct { ndsize_t first; ndsize_t second; } pair_ndsize;
 typedef struct { double first; double second; } pair_double;
 typedef struct { int has; pair_ndsize val; } opt_pair;
 typedef struct { int has; double val; } opt_double;
+typedef struct { int has; unsigned val; } opt_unsigned;
 
 static inline opt_ndsize opt_some_ndsize(ndsize_t v) { opt_ndsize o; o.has = 1; o.val = v; return o; }
 static inline opt_pair opt_some_pair(pair_ndsize v) { opt_pair o; o.has = 1; o.val = v; return o; }
 static inline opt_double opt_some_double(double v) { opt_double o; o.has = 1; o.val = v; return o; }
+static inline opt_unsigned opt_some_unsigned(unsigned v) { opt_unsigned o; o.has = 1; o.val = v; return o; }
 static inline pair_ndsize mk_pair_ndsize(ndsize_t a, ndsize_t b) { pair_ndsize p; p.first = a; p.second = b; return p; }
 static inline pair_double mk_pair_double(double a, double b) { pair_double p; p.first = a; p.second = b; return p; }
 #define OPT_NONE_ndsize ((opt_ndsize){0, 0})
 #define OPT_NONE_pair ((opt_pair){0, {0, 0}})
 #define OPT_NONE_double ((opt_double){0, 0.0})
+#define OPT_NONE_unsigned ((opt_unsigned){0, 0})
 /* 'x = boost::none' : the target type is known to the C compiler through a generic selection */
-#define OPT_NONE_FOR(x) _Generic((x), opt_ndsize: OPT_NONE_ndsize, opt_pair: OPT_NONE_pair, opt_double: OPT_NONE_double)
+#define OPT_NONE_FOR(x) _Generic((x), opt_ndsize: OPT_NONE_ndsize, opt_pair: OPT_NONE_pair, opt_double: OPT_NONE_double, opt_unsigned: OPT_NONE_unsigned)
 
 /* std::vector<T>: data pointer + length.  Elements are never owned by extracted code. */
 typedef struct { double *data; size_t n; } vec_double;
